@@ -60,6 +60,7 @@ func runFilterConc(cfg Cfg) {
 		var stop atomic.Bool
 		var probeCnt [3]atomic.Int64
 		var selfProbes atomic.Int64
+		var wops atomic.Int64 // writer calls that returned
 		var wgW, wgR sync.WaitGroup
 		type wop struct {
 			add  bool
@@ -78,6 +79,7 @@ func runFilterConc(cfg Cfg) {
 				own := prefixSet{} // EVERY range this writer currently has in the filter (all lie in its own block, which nobody else touches)
 				var mine []wop
 				for i := 0; i < perWriter; i++ {
+					wops.Add(1)
 					if w == 0 && toggle && i%25 == 7 {
 						zeroState.Store(zeroUnknown)
 						zeroEpoch.Add(1)
@@ -146,6 +148,9 @@ func runFilterConc(cfg Cfg) {
 						logs[w] = append(logs[w], wop{false, o.net, o.ones})
 					} else {
 						ones := 9 + wr.Intn(24)
+						if waves && i < perWriter/2 {
+							ones = 24 // first wave: a single prefix length; the others first appear after the switch
+						}
 						a := block | uint32(wr.U64())&0x00ffffff
 						o := wop{true, a, ones}
 						f.Add(&net.IPNet{IP: ip4(a), Mask: net.CIDRMask(ones, 32)})
@@ -202,7 +207,33 @@ func runFilterConc(cfg Cfg) {
 				}
 			}()
 		}
-		wgW.Wait()
+		// wait for the writers under a watchdog: a filter on which no call returns any more is a deadlock
+		{
+			wdone := make(chan struct{})
+			go func() { wgW.Wait(); close(wdone) }()
+			last, still := int64(-1), 0
+		watch:
+			for {
+				select {
+				case <-wdone:
+					break watch
+				case <-time.After(2 * time.Second):
+					now := wops.Load() + probeCnt[0].Load() + probeCnt[1].Load() + probeCnt[2].Load() + selfProbes.Load()
+					if now == last {
+						still++
+					} else {
+						last, still = now, 0
+					}
+					if still >= 8 {
+						buf := make([]byte, 1<<16)
+						buf = buf[:runtime.Stack(buf, true)]
+						s.Violate("no-progress", fmt.Sprintf("run %d: no Add/Remove/Contains call has returned for 16 s (%d writers, %d readers, 4- and 16-byte lookups): the filter is deadlocked", run, W, R),
+							map[string]any{"run": run, "goroutines": string(buf[:min(len(buf), 6000)])})
+						return
+					}
+				}
+			}
+		}
 		stop.Store(true)
 		wgR.Wait()
 		// final agreement: per-writer sequential application (writers own disjoint keys)
